@@ -1,6 +1,8 @@
 import PdfModel.Core.Proto
 import PdfModel.Model.Widths
 import PdfModel.Model.CMap
+import PdfModel.Spec.CMapSpellCheck
+import PdfModel.Model.FontEncoding
 
 /-! Line-protocol handler for the C19 streams. Width values are f32 bit patterns (decimal).
 
@@ -11,8 +13,17 @@ import PdfModel.Model.CMap
       codes: `,` separated
     → `ok <bits>,<bits>,…` | err | panic
   c19.simple <first> <w,w,…|-|none> <codes> [@tag]       → `ok <bits>,…`
+  c19.fontw <font> <codes> [@tag]      → `ok <bits>,…` | none | err      (`Font::widths` by subtype)
+      font: S/<first|none>/<w,w,…|-|none>/<missing|none>   Type1 / TrueType
+          | C/<dw>/<items>  CIDFontType0/2 | O  MMType1 / Type3 | T/  Type0 without descendant | T/<font>  Type0 over <font>
+  c19.diff <items|-> <codes> [@tag]    → `ok <name|->,…` | err          items `,`-separated: i<int> | n<name id> | O
+  c19.diffwrite <code=name;…|-> [@tag] → `ok <items>` | panic
   c19.parse <hex> [@tag]        → `ok cid=u+u,cid=…` (sorted by cid, newest binding; `-` for the empty map) | err | unmodelled | oof
   c19.write <cid=u+u;cid=…|-> [@tag]   → `ok <hex>` | panic
+  statement side (certifies that what the harness generated lies in the domain of `cmap_reads_spelling`):
+  c19.conf <entries|-> <hex> [@tag]    → `1` if the text is a conformant spelling of the entries (sound checker
+                                          `spellsCheck`), else `0`
+      entries `;`-separated: c:<cid>:<str> | s:<lo>:<str>|<str>|… | a:<lo>:<str>|<str>|… ; str = u+u+… or `e` (empty)
 -/
 
 namespace DrvC19
@@ -62,6 +73,40 @@ def parseEntry (s : String) : Option CMap.Entry :=
     some (k, v)
   | _ => none
 
+def parseUStr (s : String) : Option (List Nat) :=
+  if s == "e" then some [] else mapM? natOf (s.splitOn "+")
+
+def parseEnt (s : String) : Option CMap.Ent :=
+  match s.splitOn ":" with
+  | ["c", cid, str] => do some (.char (← natOf cid) (← parseUStr str))
+  | ["s", lo, strs] => do some (.rstr (← natOf lo) (← mapM? parseUStr (strs.splitOn "|")))
+  | ["a", lo, strs] => do some (.rarr (← natOf lo) (← mapM? parseUStr (strs.splitOn "|")))
+  | _ => none
+
+partial def parseFont (s : String) : Option (Widths.FontM Nat) :=
+  if s == "O" then some .other
+  else if s == "T/" then some (.type0 [])
+  else if s.startsWith "T/" then (parseFont (s.drop 2).toString).map (fun d => .type0 [d])
+  else match s.splitOn "/" with
+    | ["S", first, ws, mw] => do
+      let first ← if first == "none" then some none else (intOf first).map some
+      let ws ← if ws == "none" then some none else (parseNats ws).map some
+      let mw ← if mw == "none" then some none else (natOf mw).map some
+      some (.simple first ws mw)
+    | ["C", dw, items] => do some (.cid (← natOf dw) (← parseItems items))
+    | _ => none
+
+def parseDP (s : String) : Option (FontEncoding.DP Nat) :=
+  if s == "O" then some .other
+  else if s.startsWith "i" then (intOf (s.drop 1).toString).map .int
+  else if s.startsWith "n" then (natOf (s.drop 1).toString).map .name
+  else none
+
+def showDP : FontEncoding.DP Nat → String
+  | .int i => s!"i{i}"
+  | .name n => s!"n{n}"
+  | .other => "O"
+
 def dropTag (args : List String) : List String :=
   match args.getLast? with
   | some t => if t.startsWith "@" then args.dropLast else args
@@ -80,6 +125,28 @@ def handle (args : List String) : String :=
     match intOf first, (if ws == "none" then some none else (parseNats ws).map some), parseNats codes with
     | some first, some ws, some codes => showGets (Widths.simpleWidths 0 first ws) codes
     | _, _, _ => "bad-request"
+  | ["c19.fontw", font, codes] =>
+    match parseFont font, parseNats codes with
+    | some f, some codes =>
+      match Widths.widthsOf 0 f with
+      | .ok (some w) => showGets w codes
+      | .ok none => "none"
+      | o => o.tag
+    | _, _ => "bad-request"
+  | ["c19.diff", items, codes] =>
+    match (if items == "-" then some [] else mapM? parseDP (items.splitOn ",")), parseNats codes with
+    | some items, some codes =>
+      match FontEncoding.readDiffs 0 items [] with
+      | .ok m => "ok " ++ joinWith "," (codes.map fun c => match m.get c with | some n => toString n | none => "-")
+      | o => o.tag
+    | _, _ => "bad-request"
+  | ["c19.diffwrite", entries] =>
+    match (if entries == "-" then some [] else mapM? (fun e => match e.splitOn "=" with | [k, v] => do some ((← natOf k), (← natOf v)) | _ => none) (entries.splitOn ";")) with
+    | some es =>
+      match FontEncoding.writeDiffs none es with
+      | .ok items => if items.isEmpty then "ok -" else "ok " ++ joinWith "," (items.map showDP)
+      | o => o.tag
+    | none => "bad-request"
   | ["c19.parse", hex] =>
     match bytesOfHex hex with
     | some bs =>
@@ -89,6 +156,10 @@ def handle (args : List String) : String :=
       | .unmodelled => "unmodelled"
       | .oof => "oof"
     | none => "bad-request"
+  | ["c19.conf", entries, hex] =>
+    match (if entries == "-" then some [] else mapM? parseEnt (entries.splitOn ";")), bytesOfHex hex with
+    | some es, some bs => showBool (CMap.spellsCheck es bs)
+    | _, _ => "bad-request"
   | ["c19.write", entries] =>
     match (if entries == "-" then some [] else mapM? parseEntry (entries.splitOn ";")) with
     | some es =>
